@@ -22,13 +22,13 @@ int fft_cache_capacity();
 using namespace vf;
 using namespace dsplib;
 
-enum Kind { FFT_C, FFT_R, IFFT, IRFFT, HOLD_C, HOLD_R, HOLD_I, USE, BAD_C, HOLD_IR, HOLD_Z, PAD_C, PAD_R };
+enum Kind { FFT_C, FFT_R, IFFT, IRFFT, HOLD_C, HOLD_R, HOLD_I, USE, BAD_C, HOLD_IR, HOLD_Z, PAD_C, PAD_R, USEBAD };
 struct Req {
     Kind kind;
     int n;   // length; for USE: index of the held plan (mod number held)
 };
 static std::string rname(const Req& r) {
-    static const char* k[] = {"fft", "rfft", "ifft", "irfft", "holdC", "holdR", "holdI", "use", "fftplan-wrong-length", "holdIR", "holdCzt", "fftpad", "rfftpad"};
+    static const char* k[] = {"fft", "rfft", "ifft", "irfft", "holdC", "holdR", "holdI", "use", "fftplan-wrong-length", "holdIR", "holdCzt", "fftpad", "rfftpad", "use-wrong-length"};
     return std::string(k[r.kind]) + std::to_string(r.n);
 }
 
@@ -112,6 +112,15 @@ static Out exec_raw(const Req& q, std::vector<Held>& held) {
         Held h{HOLD_Z, q.n, nullptr, nullptr, nullptr, nullptr, std::make_shared<CztPlan>(q.n, q.n + 2, expj(-2 * pi / (q.n + 2)), cmplx_t(0.9, 0.2))};
         held.push_back(h);
         return flat(h.z->solve(cin(q.n, 20)));
+    }
+    case USEBAD: {   // a held plan applied to another length: must be rejected and leave the plan usable
+        if (held.empty()) return Out();
+        Held& h = held[(size_t)q.n % held.size()];
+        if (h.kind == HOLD_IR) return flat(h.ir->solve(cin(h.n / 2 + 3, 23)));
+        if (h.kind == HOLD_Z) return flat(h.z->solve(cin(h.n + 1, 23)));
+        if (h.kind == HOLD_C) return flat(h.c->solve(cin(h.n + 1, 23)));
+        if (h.kind == HOLD_R) return flat(h.r->solve(rin(h.n + 1, 23)));
+        return flat(h.i->solve(cin(h.n + 1, 23)));
     }
     case USE: {
         if (held.empty()) return Out();
@@ -221,6 +230,11 @@ static SeqResult run_seq(const std::vector<Req>& seq, const std::vector<Out>& fr
                 const Out* ref = nullptr;
                 if (q.kind == USE) {
                     if (!held.empty()) ref = &held_ref[(size_t)q.n % held.size()];
+                } else if (q.kind == USEBAD) {
+                    if (!held.empty() && !is_thrown(o) && res.err.empty()) {
+                        res.err = fmt("step %zu (%s): a held plan applied to an input of another length was not rejected", s, rname(q).c_str());
+                        res.site = "result";
+                    }
                 } else {
                     ref = &fresh_out[(size_t)letter_idx[s]];
                 }
@@ -229,7 +243,7 @@ static SeqResult run_seq(const std::vector<Req>& seq, const std::vector<Out>& fr
                                   o.size(), ref->size());
                     res.site = "result";
                 }
-                int nreq = q.kind == USE ? 1 << 20 : ((q.kind == PAD_C || q.kind == PAD_R) ? q.n % 1000 : q.n);
+                int nreq = (q.kind == USE || q.kind == USEBAD) ? 1 << 20 : ((q.kind == PAD_C || q.kind == PAD_R) ? q.n % 1000 : q.n);
                 const bool thrown = is_thrown(o);   // a rejected request need not have cached its plan
                 std::string e1 = lru_check(Bc, Ac, K, thrown ? 0 : primary_key(q, false), nreq);
                 std::string e2 = lru_check(Br, Ar, K, thrown ? 0 : primary_key(q, true), nreq);
@@ -268,8 +282,8 @@ int main(int argc, char** argv) {
         {"C", {{FFT_C, 12}, {FFT_R, 12}, {IFFT, 10}, {IRFFT, 12}, {FFT_C, 53}, {FFT_R, 15}}},
         {"E", {{IRFFT, 12}, {IRFFT, 13}, {IRFFT, 14}, {BAD_C, 12}, {FFT_C, 12}, {FFT_R, 14}}},
         {"G", {{PAD_C, 5016}, {PAD_C, 12016}, {PAD_C, 20016}, {PAD_R, 5016}, {PAD_R, 12016}, {FFT_C, 16}}},
-        {"F", {{HOLD_IR, 12}, {HOLD_IR, 20}, {IRFFT, 14}, {IRFFT, 12}, {HOLD_Z, 5}, {HOLD_Z, 9}, {FFT_C, 16}, {USE, 0}, {USE, 1}, {USE, 2}}},
-        {"D", {{FFT_C, 12}, {FFT_C, 60}, {FFT_C, 53}, {FFT_R, 30}, {HOLD_C, 60}, {HOLD_R, 30}, {HOLD_I, 12}, {HOLD_C, 53}, {USE, 0}, {USE, 1}}},
+        {"F", {{HOLD_IR, 12}, {HOLD_IR, 20}, {IRFFT, 14}, {IRFFT, 12}, {HOLD_Z, 5}, {HOLD_Z, 9}, {USEBAD, 0}, {USE, 0}, {USE, 1}, {USEBAD, 1}}},
+        {"D", {{FFT_C, 12}, {FFT_C, 60}, {FFT_C, 53}, {FFT_R, 30}, {HOLD_C, 60}, {HOLD_R, 30}, {HOLD_I, 12}, {HOLD_C, 53}, {USE, 0}, {USEBAD, 0}}},
     };
 
     for (auto& al : alphs) {
